@@ -12,6 +12,15 @@ git apply $S/patch.diff || { echo "patch does not apply" > $S/confirm.txt; exit 
 echo "confirmed in scratch worktree $W at $(git -C /repo rev-parse --short HEAD) on $(date -u +%FT%TZ)"
 echo "== 1. pinned suite with the patch applied (baseline command)"
 cargo nextest run --workspace --no-fail-fast --tool-config-file pb:/w/lib/nextest.toml --profile pb --test-threads 8 --offline 2>&1 | grep -E "Summary|FAIL |error(\[|:)" | head -20
+if [ -f $S/demo_append_to ]; then
+  T=$(cat $S/demo_append_to); cat $S/seeded_demo.rs >> $T
+  echo "== 2. demonstration (module appended to $T) with the patch applied (must fail)"
+  cargo test --offline --lib seeded_demo 2>&1 | grep -E "^test result|^test .*FAILED" | head -8
+  git checkout -q -- $T; cat $S/seeded_demo.rs >> $T
+  echo "== 3. demonstration without the patch (must pass)"
+  cargo test --offline --lib seeded_demo 2>&1 | grep -E "^test result|^test .*FAILED" | head -8
+  git checkout -q -- $T
+else
 cp $S/seeded_demo.rs tests/seeded_demo.rs
 echo "== 2. demonstration with the patch applied (must fail)"
 cargo test --offline --test seeded_demo 2>&1 | grep -E "^test result|^test .*FAILED" | head -8
@@ -19,5 +28,6 @@ git apply -R $S/patch.diff
 echo "== 3. demonstration without the patch (must pass)"
 cargo test --offline --test seeded_demo 2>&1 | grep -E "^test result|^test .*FAILED" | head -8
 rm -f tests/seeded_demo.rs
+fi
 } > $S/confirm.txt 2>&1
 cat $S/confirm.txt
